@@ -55,6 +55,7 @@ FULL = [
     ('keywords-then-parameterised-rule', "@@keyword :: if then\n@@nameguard :: True\n\nstart[Start] = /\\w+/ $ ;", ['ab', 'if', 'a b']),
     ('pattern-blanks', "@@whitespace :: None\nstart = / +/ 'a' /b /  $ ;", [' ab ', 'ab ', '  ab ', ' ab']),
     ('constant-newline', "start = k:`'a\\nb'` 'x' ;", ['x', 'y']),
+    ('param-with-line-break', "start = a $ ;\na['x\\ny'] = 'a' ;", ['a', 'b']),
     ('float-overflow-constant', "start = a:`1e999` n:`-1e999` 'x' $ ;", ['x', 'y']),
     ('style-like-tokens', "start = '\\\\e[1m' 'f{x}' `f{{y}}` '{0:>4}' $ ;", ['\\e[1m f{x} {0:>4}', 'f{x}']),
 ]
@@ -268,6 +269,10 @@ def run_pretty_case(case):
             from tatsu import railroads as _rr
             rows = list(_rr.tracks(mm))       # the unstripped tracks: every row of one diagram has the same display width
             block = []
+            broken = [r for r in rows if '\n' in r or '\r' in r]
+            if broken:
+                # a track is one display line: a line break inside it makes it two lines of other widths
+                P.append(f'railroads of the {which} model: a track contains a line break: ' + repr(broken[0])[:160])
             for row in rows + ['']:
                 block.append(row)
                 if row.strip() == '':
